@@ -98,7 +98,7 @@ impl<'a, P: for<'p> Protocol<'p>> DemoWriter<'a, P> {
         items: T,
     ) -> Result<(), WriteError> {
         // Verify that the tick number is strictly increasing.
-        if tick < self.last_tick {
+        if tick <= self.last_tick {
             return Err(WriteError::TooLowTickNumber);
         }
         // We write a keyframe at the start, and another keyframe every 5 seconds.
